@@ -10,7 +10,7 @@ CLAIMED = {
     "C08": ("history", "4/C08", "seeded simulation of interleaved public-call histories over 1-3 grids, judged per step against a fresh-process reference table and a pristine module-state snapshot; fork-per-run, ddmin-minimised replay"),
 }
 TEXT = {
-    "C08": "Exploration: seeded sampling of operation histories (both JIT configurations, simulated prange schedules, chunking, failed ops, other-grid ops); each step judged against the value a pristine process returns for the same call on a freshly opened grid, plus a digest of every module-level template. A clean batch is evidence, not proof; abstract cache-state and transition counts say how much of the history space was reached.",
+    "C08": "Exploration: seeded sampling of operation histories (both JIT configurations, a second PYTHONHASHSEED, simulated prange schedules, chunking, failed ops, other-grid ops, nine catalogue sources incl. ones that supply their own edge table or off-sphere Cartesian coordinates); each step judged against the value a pristine process returns for the same call on a freshly opened grid, plus a digest of every module-level template. A clean batch is evidence, not proof; abstract cache-state and transition counts say how much of the history space was reached.",
 }
 NOTE = {
     "C08": "Trusted: the value returned on a fresh grid in a pristine process (history independence, not absolute correctness); tolerance 1e-9; mesh/catalogue generators; numba/sklearn/cartopy as shipped. JIT-on prange threads are uncontrolled.",
